@@ -40,6 +40,10 @@ pub enum PollEnd {
     Ready,
     /// streams: Ready(Some(item)); sinks: Ready(Err)
     Alt,
+    /// the inner object panics at the end of this call (after its actions); the panic unwinds
+    /// through the adapter and is caught by the caller (a task runtime does the same). The object
+    /// is not called again afterwards, only dropped.
+    Panic,
 }
 
 #[derive(Clone, Debug, Serialize, Deserialize, PartialEq)]
@@ -371,7 +375,7 @@ fn mini(p: &Profile, depth: u32) -> BoxedStrategy<Mini> {
 pub fn poll_script(p: &Profile) -> impl Strategy<Value = PollScript> {
     (
         proptest::collection::vec(mini(p, 1), 0..6),
-        prop_oneof![3 => Just(PollEnd::Pending), 3 => Just(PollEnd::Ready), 2 => Just(PollEnd::Alt)],
+        prop_oneof![6 => Just(PollEnd::Pending), 6 => Just(PollEnd::Ready), 4 => Just(PollEnd::Alt), 1 => Just(PollEnd::Panic)],
     )
         .prop_map(|(acts, end)| PollScript { acts, end })
 }
